@@ -282,7 +282,9 @@ func genName(rng *verifkit.Rand, rich *[]string) string {
 }
 
 // Styles of hint decoration of a locator.
-var Styles = []string{"bare", "A", "KA", "AK", "BAC", "K", "AA", "KZ"}
+// (several non-permission hints on the same side of the signature included:
+// "KBA", "AKB", "KBAZC")
+var Styles = []string{"bare", "A", "KA", "AK", "BAC", "K", "AA", "KZ", "KBA", "AKB", "KBAZC"}
 
 func dress(l Loc, style string, rng *verifkit.Rand) Loc {
 	l.Hints = nil
